@@ -22,8 +22,8 @@ Theorem C20_poly_full_refuted : forall k c, exists n, c * (S n) ^ k < cost (F 2 
 Proof. exact lam_family_not_polynomial. Qed.
 Print Assumptions C20_poly_full_refuted.
 
-(* the exponential families of the table are exactly these four *)
-Example C20_doubling_table : map (fun r => fst (fst r)) (filter doubling table) = ["with"; "lam"; "formals"; "inherit"]%string.
+(* the exponential families of the table are exactly these ten *)
+Example C20_doubling_table : map (fun r => fst (fst r)) (filter doubling table) = ["with"; "lam"; "formals"; "inherit"; "concat_nl"; "concat_chain_r"; "update_chain_r"; "impl_chain_r"; "lam_nl"; "with_nl"]%string.
 Proof. exact doubling_families. Qed.
 Print Assumptions C20_doubling_table.
 
